@@ -21,7 +21,8 @@ Inductive tok :=
 | TThe | TOf | TObjProp (f : ofam) (pid : nat) | TKw (f : ofam) | TRawInt (z : Z) | TRawConst (k : nat) | TItemKw | TMenuProp (pid : nat)
 | TTheProp (k : thekind) (i : nat)       (* the <special property / date-time function / system property>, one token *)
 | TTheName (n : nat)                     (* the <names[n]>, one token *)
-| TName (n : nat).                       (* names[n], in  the <name> of <expression> *)
+| TName (n : nat)                        (* names[n], in  the <name> of <expression> *)
+| TTheKey (n : nat).                     (* the <names[n]>: a key / mouse / date property, one token *)
 
 (* the text of a property addressed by name: the text of the_name_node *)
 Definition the_name_text (name : string) : string :=
@@ -61,6 +62,7 @@ Definition render_tok (en : env) (t : tok) : string :=
   | TMenuProp pid => nth pid MENUITEM_PROPERTIES ""
   | TTheName n => the_name_text (nm en n)
   | TName n => nm en n
+  | TTheKey n => "the " ++ nm en n
   | TTheProp k i =>
     let name := nth i (the_table k) "" in
     match k with
@@ -124,6 +126,7 @@ Fixpoint pp_tok (en : env) (e : expr) {struct e} : list tok :=
   | EThe k i => [TTheProp k i]
   | ETheN n => [TTheName n]
   | EAcc n x => [TThe; TSp; TName n; TSp; TOf; TSp] ++ pp_tok en x
+  | EKey n => [TTheKey n]
   end.
 
 (* ---- the parser ---- *)
@@ -217,6 +220,7 @@ Fixpoint parse_u (fuel : nat) (ts : list tok) {struct fuel} : option (expr * lis
     | TLFun fn :: r => Some (ELCall fn [], r)
     | TTheProp k i :: r => Some (EThe k i, r)
     | TTheName n :: r => Some (ETheN n, r)
+    | TTheKey n :: r => Some (EKey n, r)
     | TThe :: TName n :: TOf :: r => match parse_u f r with Some (x, r') => Some (EAcc n x, r') | None => None end
     | TLB :: TColon :: TRB :: r => Some (EPList [], r)
     | TLB :: TRB :: r => Some (EList [], r)
